@@ -52,12 +52,11 @@ EndOK ==
           => Rec[k].out.display = Whole(k)
 
 Done == 9999
-Reject == /\ l # Done /\ l >= 1
-          /\ \/ ~ShapeOK
-             \/ (~failed /\ l <= Len(Writes) /\ l <= Len(Chunks)
-                   /\ ~AllowedI(info, cum, n, Len(Chunks[l]), Writes[l].ret, Writes[l].n))
-             \/ ((failed \/ l > Len(Writes) \/ l > Len(Chunks)) /\ ~EndOK)
+Step == Load \/ TraceWrite
+Terminal == l >= 1 /\ l # Done /\ EndOK
+\* rejected: no allowed step explains the next logged write, or the end conditions fail
+Reject == /\ l # Done /\ ~ENABLED Step /\ ~Terminal
           /\ PrintT(<<"MISMATCH", k, "base">>)
           /\ l' = Done /\ UNCHANGED <<k, cum, n, failed, info>>
-Next == Load \/ TraceWrite \/ Reject
+Next == Step \/ Reject
 =============================================================================
